@@ -18,3 +18,17 @@ git apply _seeded/patch.diff
 git status --short | grep '^??' | grep -v _seeded | awk '{print $2}' | xargs -r rm -rf
 cd /verif
 VERIF_REPO=$wt ./check $pid 2>/tmp/seed_$1_check.err | grep -E "^(OK|VIOLATION|ERROR)" 
+# the seeded run regenerated coq/gen/*.v from the scratch worktree: regenerate them from /repo again
+python3 - "$pid" <<'PY'
+import json,subprocess,sys,os
+c=json.load(open('/verif/props.d/%s.json'%sys.argv[1]))
+env=dict(os.environ,VERIF_REPO='/repo')
+for name,out in c.get('translate',[]):
+    subprocess.run(['/verif/build/bin/translate',name,'/verif/coq/'+out],env=env)
+# enumerators run the harness binary, which the seeded run built against the worktree: rebuild first
+if c.get('enumerate'):
+    for g in c['enumerate']:
+        subprocess.run(['go','build','-tags','verif','-o','/verif/build/bin/'+g['cmd'],'./cmd/'+g['cmd']],cwd='/verif/harness',env=dict(env,CGO_ENABLED='0'))
+        subprocess.run(['/verif/build/bin/'+g['cmd']]+g['args'],cwd='/verif',env=env)
+PY
+git -C /verif status --short coq/gen | head
